@@ -126,6 +126,14 @@ func newSetup(withPrev bool) *setup {
 	return s
 }
 
+// sameKeyID makes the recorded previous key share the certificate key (and
+// therefore the key ID) of the current one: encryption keys regenerated under an
+// unchanged certificate key. Only the shared secret distinguishes the generations.
+func (s *setup) sameKeyID() *setup {
+	s.oldCert = s.cert
+	return s
+}
+
 // sides returns (node side, server side) key sources as the library builds
 // them, with the previous key recorded through SetPreviousEncryptionKey.
 func (s *setup) sides(t vkit.TB) (*types.NodeCredentials, *types.NodeInformation) {
@@ -149,6 +157,10 @@ func TestProp_KeyCases(t *testing.T) {
 		kind, msg := genMessage(t)
 		withPrev := rapid.Bool().Draw(t, "withPrev")
 		s := newSetup(withPrev)
+		sameID := withPrev && rapid.Bool().Draw(t, "previousKeySharesKeyId")
+		if sameID {
+			s.sameKeyID()
+		}
 		nSide, sSide := s.sides(t)
 		fromNode := rapid.Bool().Draw(t, "senderIsNode")
 		useOld := withPrev && rapid.Bool().Draw(t, "senderUsesPreviousPair")
@@ -185,10 +197,10 @@ func TestProp_KeyCases(t *testing.T) {
 		}
 		desc := func(variant string) func() any {
 			return func() any {
-				return map[string]any{"message": kind, "sender_is_node": fromNode, "receiver_has_previous": withPrev, "sender_uses_previous_pair": useOld, "receiver_variant": variant, "ciphertext_len": len(ct)}
+				return map[string]any{"message": kind, "sender_is_node": fromNode, "receiver_has_previous": withPrev, "previous_shares_key_id": sameID, "sender_uses_previous_pair": useOld, "receiver_variant": variant, "ciphertext_len": len(ct)}
 			}
 		}
-		shape := fmt.Sprintf("%s|%v|%v|%v", kind, fromNode, withPrev, useOld)
+		shape := fmt.Sprintf("%s|%v|%v|%v|%v", kind, fromNode, withPrev, useOld, sameID)
 
 		// 1. matching receiver: exact round trip
 		got, derr, panicked := decrypt(t, ct, receiver, msg, "matching receiver", desc("matching")())
